@@ -1,9 +1,13 @@
 package props
 
 import (
+	"bufio"
 	"bytes"
 	"fmt"
 	"io"
+	"os"
+	"path/filepath"
+	"strings"
 	"sync/atomic"
 
 	"verif/engine/envx"
@@ -158,7 +162,7 @@ func C07(tier string) {
 	r.NotExhaustive()
 	small := append(smallSeeds(), corruptSeeds()...)
 	repo := repoImages()
-	r.Rule(fmt.Sprintf("seeds: %d small synthetic files (one per format variant and one per parser error branch, empty input) and the %d repository images; for every seed: EVERY end position 0..len (every position up to 8 KiB and the last 64 for larger files) x 4 endings {EOF, data+EOF, I/O error, data+I/O error} x delivery {all at once, 1 byte per call; thorough adds 2,3,7,4095,4097} x 4 loaders x drains {io.ReadAll, 1-byte reads, 4097-byte reads}; thorough adds a depth-first exploration of all reader answer sequences (short reads, data+EOF, errors) with <= 2 deviations on the small seeds; distinct = (seed, loader, end position, ending) combinations", len(small), len(repo)))
+	r.Rule(fmt.Sprintf("seeds: %d small synthetic files (one per format variant and one per parser error branch, empty input) and the %d repository images; for every seed: EVERY end position 0..len (every position up to 8 KiB and the last 64 for larger files) x 4 endings {EOF, data+EOF, I/O error, data+I/O error} x delivery {all at once, 1 byte per call; thorough adds 2,3,7,4095,4097} x 4 loaders x drains {io.ReadAll, 1-byte reads, 4097-byte reads}; sources of other dynamic types (bytes.Reader, strings.Reader, bufio.Reader, bytes.Buffer, os.File) handed over at offset 0 and positioned 1/16/5000 bytes into their data; thorough adds a depth-first exploration of all reader answer sequences (short reads, data+EOF, errors) with <= 2 deviations on the small seeds; distinct = (seed, loader, end position, ending) combinations", len(small), len(repo)))
 	r.Assume("truncation at t and an I/O error at position p are alternative endings of the same source (bytes beyond the end are never observed), so positions x endings is the full matrix of the quantifier")
 
 	chunks := []int{0, 1}
@@ -226,6 +230,91 @@ func C07(tier string) {
 		r.Eval(evals)
 		r.DistinctN(distinct)
 	})
+
+	// sources of other dynamic types: the loaders take an io.Reader, but a
+	// bytes.Reader / strings.Reader / bufio.Reader / os.File also offers Seek,
+	// WriteTo, ReadByte..., and may be handed over already positioned past a
+	// prefix the caller consumed. Whatever a loader does with those
+	// capabilities, the stream must replay what the source had left.
+	var capEvalsA atomic.Int64
+	allSeeds := append(append([]Case{}, small...), repo...)
+	_ = os.MkdirAll(filepath.Join(ev.Root(), ".work"), 0o755)
+	r.Par(ev.Workers(), func(shard, nshards int) {
+		tmpf, _ := os.CreateTemp(filepath.Join(ev.Root(), ".work"), "c07-*")
+		if tmpf != nil {
+			defer os.Remove(tmpf.Name())
+			defer tmpf.Close()
+		}
+		var capEvals int64
+		for si := shard; si < len(allSeeds); si += nshards {
+			seed := &allSeeds[si]
+			cuts := []int{0, 1, 7, 8, 12, len(seed.Data) / 2, len(seed.Data) - 1, len(seed.Data)}
+			if len(seed.Data) <= 600 {
+				cuts = cuts[:0]
+				for t := 0; t <= len(seed.Data); t++ {
+					cuts = append(cuts, t)
+				}
+			}
+			for _, t := range cuts {
+				if t < 0 || t > len(seed.Data) {
+					continue
+				}
+				want := seed.Data[:t]
+				for _, junk := range []int{0, 1, 16, 5000} {
+					whole := append(bytes.Repeat([]byte{0xFF, 0xD8, 0x89, 'P'}, junk/4+1)[:junk], want...)
+					mk := map[string]func() io.Reader{
+						"bytes.Reader": func() io.Reader {
+							b := bytes.NewReader(whole)
+							b.Seek(int64(junk), io.SeekStart)
+							return b
+						},
+						"strings.Reader": func() io.Reader {
+							b := strings.NewReader(string(whole))
+							b.Seek(int64(junk), io.SeekStart)
+							return b
+						},
+						"bufio.Reader": func() io.Reader {
+							b := bufio.NewReaderSize(bytes.NewReader(whole), 64)
+							b.Discard(junk)
+							return b
+						},
+						"bytes.Buffer": func() io.Reader {
+							b := bytes.NewBuffer(append([]byte(nil), whole...))
+							b.Next(junk)
+							return b
+						},
+					}
+					if tmpf != nil && (len(seed.Data) <= 600 && t%5 == 0 || len(seed.Data) > 600) {
+						mk["os.File"] = func() io.Reader {
+							tmpf.Truncate(0)
+							tmpf.WriteAt(whole, 0)
+							tmpf.Seek(int64(junk), io.SeekStart)
+							return tmpf
+						}
+					}
+					for kindName, f := range mk {
+						for li := range loaders {
+							l := &loaders[li]
+							o, st := load(l, f())
+							capEvals++
+							var got []byte
+							var err error
+							if st != nil && o.Panic == "" {
+								got, err = drain(st, (t+junk)%3)
+							}
+							if o.Panic != "" || st == nil || err != nil || !bytes.Equal(got, want) {
+								r.Violate("source-type/"+l.Name+"/"+kindName, fmt.Sprintf("%s.Load on a %s positioned %d bytes into its data: stream yields %d bytes (err %v, panic %q), the source had %d bytes left [%s cut at %d]", l.Name, kindName, junk, len(got), err, o.Panic, len(want), seed.Name, t),
+									c07Case{seed.Name, l.Name, "EOF from a " + kindName, "", t, junk, hexHead(seed.Data, 128)}, nil)
+							}
+						}
+					}
+				}
+			}
+		}
+		capEvalsA.Add(capEvals)
+	})
+	r.Eval(capEvalsA.Load())
+	r.Set("source_type_executions", capEvalsA.Load())
 
 	// thorough: answer-sequence exploration with errors on the small seeds
 	if tier == "thorough" {
